@@ -3,6 +3,7 @@ package main
 import (
 	"fmt"
 	"math/big"
+	"strings"
 )
 
 // C06: constant expressions in every operand position that admits one.
@@ -269,6 +270,47 @@ func c06Forward(shape string, x, y int64, mode int, k int) *ProgCase {
 	return &ProgCase{P: p, Prop: "C06", Cell_: fmt.Sprintf("forward %s m%d", shape, mode)}
 }
 
+// forward shapes with $: the body mentions $ and a name defined further down; $ is the address of the EQU line, whatever the
+// address of the statements that use the name later.
+var c06DollarShapes = []string{"DOLLAR+X", "X+DOLLAR", "DOLLAR-X", "(DOLLAR-100)*X", "DOLLAR+X*2", "2*X+DOLLAR-1", "DOLLAR+X+Y", "DOLLAR*X", "X-DOLLAR", "DOLLAR/X", "DOLLAR"}
+
+func c06ForwardDollar(shape string, x, y int64, org int64, mode int, k int) *ProgCase {
+	p := Prog{}
+	base := int64(0)
+	if org >= 0 {
+		p.Stmts = append(p.Stmts, PStmt{K: "org", N: org})
+		base = org
+	}
+	if mode == 32 {
+		p.Stmts = append(p.Stmts, PStmt{K: "bits", N: 32})
+	}
+	fill := func(n int) PStmt {
+		var it []DItem
+		for i := 0; i < n; i++ {
+			it = append(it, numItem(int64(0x90+i), 0))
+		}
+		return PStmt{K: "data", W: 1, Tag: "fill", Items: it}
+	}
+	pre := k%5 + 1
+	p.Stmts = append(p.Stmts, fill(pre))
+	e := parseExprText(shape)
+	v, ok := e.Eval(map[string]int64{"X": x, "Y": y, "DOLLAR": base + int64(pre)})
+	if !ok {
+		return nil
+	}
+	val := v.Int64()
+	text := strings.ReplaceAll(e.Render(k%3), "DOLLAR", "$")
+	p.Stmts = append(p.Stmts, PStmt{K: "equ", Label: "A", Text: text, N: val, Tag: "equ"})
+	if k%2 == 0 {
+		// used directly after its definition, and again further down
+		p.Stmts = append(p.Stmts, PStmt{K: "data", W: 4, Tag: "d4-forward-dollar", Items: []DItem{{Kind: "num", Num: val, Text: "A"}}})
+	}
+	p.Stmts = append(p.Stmts, fill(k%3+2), PStmt{K: "equ", Label: "Y", Text: spellInt(y, k%2), N: y, Tag: "equ"}, PStmt{K: "equ", Label: "X", Text: spellInt(x, (k+1)%2), N: x, Tag: "equ"})
+	p.Stmts = append(p.Stmts, PStmt{K: "data", W: 4, Tag: "d4-forward-dollar", Items: []DItem{{Kind: "num", Num: val, Text: "A"}}}, fill(3),
+		PStmt{K: "data", W: 2 + 2*(k%2), Tag: "d-forward-dollar", Items: []DItem{{Kind: "num", Num: val, Text: "A"}, {Kind: "num", Num: val + 1, Text: "A+1"}}})
+	return &ProgCase{P: p, Prop: "C06", Cell_: fmt.Sprintf("forward-dollar %s m%d org=%d", shape, mode, org)}
+}
+
 func init() {
 	props["C06"] = propCheck{run: func(env *Env, rep *Report) {
 		env.InitBaseline()
@@ -297,7 +339,17 @@ func init() {
 				}
 			}
 		}
-		rep.Rule = "every forward shape (an EQU body over names defined further down: 37 shapes x 4 x 2 values, also reached through a second EQU) compared with the same shape after the definitions and written in place; " +
+		for _, sh := range c06DollarShapes {
+			for _, x := range []int64{0x10, -3, 7} {
+				for _, org := range []int64{-1, 0x7c00} {
+					k++
+					if c := c06ForwardDollar(sh, x, 5, org, 16+16*(k%2), k); c != nil {
+						cases = append(cases, c)
+					}
+				}
+			}
+		}
+		rep.Rule = "forward shapes with $ (the body mentions $ and names defined further down; the name is used at other addresses than the EQU line's): 11 shapes x 3 values x 2 origins; every forward shape (an EQU body over names defined further down: 37 shapes x 4 x 2 values, also reached through a second EQU) compared with the same shape after the definitions and written in place; " +
 			"seeded programs: 0-3 chained EQU definitions, then 2-6 expression trees of depth <= 4 over boundary literals, + - * / %, parentheses, EQU names (reused after appearing inside products and differences) and $, each placed in a seeded operand position " +
 			"(DB/DW/DD lane, list lane, MOV/ALU immediate, [reg+expr] displacement, RESB expr, ALIGNB expr, EQU body) and rendered in two spacings; plus sums whose constant terms are interleaved differently with $ / an EQU name; " +
 			"oracle: math/big evaluator (precedence, left associativity, truncation toward zero) compared with the value observed in the output through the walker / reference decoder; non-trivial = accepted and all lanes judged; distinct = (mode, number of EQUs, last position) cells"
